@@ -799,6 +799,35 @@ try:
     d = base(); d['links_east_header'] = False; NEG.append(('links-sheet-without-east-header', d))
     for key, d in NEG:
         run_negative('reject/' + key, d)
+    # ---- an amplifier site whose Eqpt row declares both amplifiers 'fused': a route list may still name the site
+    from gnpy.topology.request import correct_json_route_list as _correct
+    from gnpy.core.exceptions import ServiceError as _ServiceError
+    for loose_cell, want in (('no', 'STRICT'), ('yes', 'LOOSE'), (None, 'LOOSE')):
+        # (the direction of a line site is taken from the next site named in the list: each list names it)
+        for src, dst, path in (('A', 'C', ['A', 'B', 'C']), ('C', 'A', ['C', 'B', 'A']), ('A', 'C', ['B', 'C'])):
+            cases += 1
+            key = f'ila-site-with-fused-amplifiers/{src}{dst}/{path}/is loose? {loose_cell}'
+            d = {'nodes': [('A', 'ROADM', 1, 0), ('B', 'ILA', 1, 1), ('C', 'ROADM', 1, 2)],
+                 'links': [{'a': 'A', 'z': 'B', 'east': {'distance': 40}}, {'a': 'B', 'z': 'C', 'east': {'distance': 40}}],
+                 'eqpt': [{'a': 'B', 'z': 'C', 'east': {'type': 'fused'}, 'west': {'type': 'fused'}}],
+                 'services': [{'id': 0, 'src': src, 'dst': dst, 'trx': 'Voyager', 'mode': 'mode 1', 'spacing': 50, 'bw': 100, 'path': path,
+                               'loose': loose_cell}]}
+            p = Path(TMP) / f'fusedila_{cases}.xlsx'
+            write_workbook(d, p)
+            try:
+                eq = equipment()
+                net = quiet(load_network, p, eq)
+                net, _, _ = quiet(designed_network, eq, net)
+                rq = quiet(lambda: _correct(net, requests_from_json(load_requests(p, eq, bidir=False, network=net, network_filename=p), eq)))[0]
+            except _ServiceError as e:
+                wit.append({'key': key, 'problems': [f'the route list through site B is refused: {" ".join(str(e).split())[:160]}']})
+                continue
+            # the elements that stand for site B in each direction
+            site_b = {'A': 'west edfa in B to C', 'C': 'east edfa in B to C'}[dst]
+            hops = [(n, l) for n, l in zip(rq.nodes_list, rq.loose_list) if ' B' in n or 'in B' in n]
+            if [n for n, _ in hops] != [site_b] or any(l != want for _, l in hops):
+                wit.append({'key': key, 'problems': [f'route list {list(zip(rq.nodes_list, rq.loose_list))}: site B should appear once as '
+                                                      f'{site_b!r} with hop type {want}']})
 finally:
     shutil.rmtree(TMP, ignore_errors=True)
 if os.environ.get('C20_TRACE'):
@@ -813,6 +842,6 @@ finish('workbook conversion: sites, fibres (west defaulting to east, zeros kept)
        f'{len(TOPOS)} topologies (line, reversed-row line, ring with ILA and FUSED, star with untyped leaf, degree-3 ILA, chain of ILAs) x '
        f'{len(LINK_VARIANTS)} Links variants x {len(EQPT_VARIANTS)} Eqpt / Roadms variants'
        + (' (full product on 2 topologies, a pairwise cover on the others)' if QUICK else '')
-       + f', 3-5 Service rows each, 3 workbooks with route lists naming a re-typed site, {len(NEG)} malformed workbooks'
+       + f', 3-5 Service rows each, 3 workbooks with route lists naming a re-typed site, 9 naming an amplifier site declared fused, {len(NEG)} malformed workbooks'
        + ('' if QUICK else ', 40 row-shuffled workbooks'),
        cases, wit, nontrivial=nontriv, t0=t0)
